@@ -1204,7 +1204,8 @@ func (fr *Frame) execLoopCut(l *Loop, in []*Edge) map[*ssa.BasicBlock][]*Edge {
 			if !clauseActive(lt.Tags, vc.w.prop) {
 				continue
 			}
-			t := fr.evalGoal(lt.Expr, scope, e.st, fr.entry)
+			// in a latch clause old(e) is e at the start of this iteration
+			t := fr.evalGoal(lt.Expr, scope, e.st, head.st)
 			vc.obligeNamed(fr, fmt.Sprintf("%s/loop%d/latch/%d@%d", fname, l.ord, i, li), "latch", t, lt.Tags, lt.Src)
 		}
 		if len(loopLocs) > 0 {
